@@ -88,7 +88,9 @@ func mustPanic(p *packages.Package, body []ast.Stmt) bool {
 type tswitch struct {
 	p       *packages.Package
 	fn      string
+	fd      *ast.FuncDecl
 	sw      *ast.TypeSwitchStmt
+	tagExpr ast.Expr // the switched-on expression, seen through local copies and interface conversions
 	tag     types.Type
 	covered []types.Type
 }
@@ -143,7 +145,8 @@ func findTypeSwitches(c *Ctx) []tswitch {
 					case *ast.ExprStmt:
 						x = a.X.(*ast.TypeAssertExpr).X
 					}
-					out = append(out, tswitch{p, path + "." + name, sw, p.TypesInfo.TypeOf(x), cov})
+					x = resolveLocal(p, fd, x)
+					out = append(out, tswitch{p, path + "." + name, fd, sw, x, p.TypesInfo.TypeOf(x), cov})
 					return true
 				})
 			}
@@ -191,17 +194,10 @@ func siteKeys(sws []tswitch) []string {
 // literal that is handed (directly or through a local variable) to a call
 // that also receives typed-nil node arguments ((*ast.X)(nil)) or a
 // []ast.Node literal of them.
-func inspectorFilter(p *packages.Package, fd *ast.FuncDecl, sw *ast.TypeSwitchStmt) []types.Type {
+func inspectorFilter(p *packages.Package, fd *ast.FuncDecl, sw *ast.TypeSwitchStmt, tagExpr ast.Expr) []types.Type {
 	var tagObj types.Object
-	switch a := sw.Assign.(type) {
-	case *ast.AssignStmt:
-		if id, ok := ast.Unparen(a.Rhs[0].(*ast.TypeAssertExpr).X).(*ast.Ident); ok {
-			tagObj = p.TypesInfo.ObjectOf(id)
-		}
-	case *ast.ExprStmt:
-		if id, ok := ast.Unparen(a.X.(*ast.TypeAssertExpr).X).(*ast.Ident); ok {
-			tagObj = p.TypesInfo.ObjectOf(id)
-		}
+	if id, ok := ast.Unparen(tagExpr).(*ast.Ident); ok {
+		tagObj = p.TypesInfo.ObjectOf(id)
 	}
 	if tagObj == nil {
 		return nil
@@ -225,68 +221,7 @@ func inspectorFilter(p *packages.Package, fd *ast.FuncDecl, sw *ast.TypeSwitchSt
 	if lit == nil {
 		return nil
 	}
-	// the variable the literal is assigned to, if any
-	var litVar types.Object
-	ast.Inspect(fd.Body, func(n ast.Node) bool {
-		as, ok := n.(*ast.AssignStmt)
-		if !ok {
-			return true
-		}
-		for i, r := range as.Rhs {
-			if r == ast.Expr(lit) && i < len(as.Lhs) {
-				if id, ok := as.Lhs[i].(*ast.Ident); ok {
-					litVar = p.TypesInfo.ObjectOf(id)
-				}
-			}
-		}
-		return true
-	})
-	var filter []types.Type
-	typedNil := func(e ast.Expr) types.Type {
-		call, ok := ast.Unparen(e).(*ast.CallExpr)
-		if !ok || len(call.Args) != 1 {
-			return nil
-		}
-		if tv, ok := p.TypesInfo.Types[call.Fun]; !ok || !tv.IsType() {
-			return nil
-		}
-		if id, ok := call.Args[0].(*ast.Ident); !ok || id.Name != "nil" {
-			return nil
-		}
-		return p.TypesInfo.TypeOf(call.Fun)
-	}
-	ast.Inspect(fd.Body, func(n ast.Node) bool {
-		call, ok := n.(*ast.CallExpr)
-		if !ok {
-			return true
-		}
-		uses := false
-		for _, a := range call.Args {
-			if a == ast.Expr(lit) {
-				uses = true
-			}
-			if id, ok := a.(*ast.Ident); ok && litVar != nil && p.TypesInfo.ObjectOf(id) == litVar {
-				uses = true
-			}
-		}
-		if !uses {
-			return true
-		}
-		for _, a := range call.Args {
-			if t := typedNil(a); t != nil {
-				filter = append(filter, t)
-			}
-			if cl, ok := a.(*ast.CompositeLit); ok {
-				for _, e := range cl.Elts {
-					if t := typedNil(e); t != nil {
-						filter = append(filter, t)
-					}
-				}
-			}
-		}
-		return true
-	})
-	return filter
+	return filterOfCallback(p, fd, lit)
 }
 
 // filterOfCallback returns the node-type filter of the inspector call that
@@ -339,6 +274,7 @@ func filterOfCallback(p *packages.Package, fd *ast.FuncDecl, lit *ast.FuncLit) [
 			return true
 		}
 		for _, a := range call.Args {
+			a = resolveLocal(p, fd, a)
 			if t := typedNil(a); t != nil {
 				filter = append(filter, t)
 			}
@@ -453,9 +389,60 @@ func runC03(c *Ctx) {
 			c.Undecided("found only %d type switches with a panicking default", len(sws))
 		}
 		nFull, nFilter, nCase := 0, 0, 0
+		present := map[string]bool{}
+		for _, k := range keys {
+			present[k] = true
+		}
+		pkgOfKey := func(k string) string {
+			head := k
+			if i := strings.Index(k, "#"); i >= 0 {
+				head = k[:i]
+			}
+			slash := strings.LastIndex(head, "/")
+			if dot := strings.Index(head[slash+1:], "."); dot >= 0 {
+				return head[:slash+1+dot]
+			}
+			return head
+		}
+		tagOfKey := func(k string) string { return k[strings.Index(k, ":")+1:] }
+		// lookup finds the reviewed table line of a switch. A switch that was moved
+		// into another function of the same package (helper extracted, function
+		// renamed) inherits the line of the site that disappeared, provided it
+		// switches on the same static type and still has every reviewed case.
+		lookup := func(kind, key string, have map[string]bool) ([2]string, string, bool) {
+			if e, ok := table[kind][key]; ok {
+				return e, key, true
+			}
+			for _, site := range SortedKeys(table[kind]) {
+				if present[site] || pkgOfKey(site) != pkgOfKey(key) || tagOfKey(site) != tagOfKey(key) {
+					continue
+				}
+				e := table[kind][site]
+				if kind == "caseset" {
+					all := true
+					for _, want := range strings.Split(e[0], ",") {
+						if !have[want] {
+							all = false
+						}
+					}
+					if !all {
+						continue
+					}
+				}
+				return e, site, true
+			}
+			return [2]string{}, "", false
+		}
 		for i, s := range sws {
 			key := keys[i]
+			// kinds excluded before the switch is reached (`if _, ok := x.(*T); ok { return }` in any spelling)
+			pre := preNarrowed(c, s)
 			covers := func(t types.Type) bool {
+				for _, ct := range pre {
+					if types.Identical(ct, t) {
+						return true
+					}
+				}
 				for _, ct := range s.covered {
 					if types.Identical(ct, t) {
 						return true
@@ -477,14 +464,18 @@ func runC03(c *Ctx) {
 					}
 				}
 			}
-			if flt := inspectorFilter(s.p, fd, s.sw); len(flt) > 0 {
+			if flt := inspectorFilter(s.p, fd, s.sw, s.tagExpr); len(flt) > 0 {
 				nFilter++
 				for _, t := range flt {
 					c.Check(key+"::"+TypeString(t), s.sw.Pos(), covers(t), "the traversal delivers %s nodes to this callback (node-type filter of the inspector call), but the type switch has no case for it and its default panics", TypeString(t))
 				}
 				continue
 			}
-			if e, ok := table["full"][key]; ok {
+			have := map[string]bool{}
+			for _, t := range s.covered {
+				have[TypeString(t)] = true
+			}
+			if e, tkey, ok := lookup("full", key, have); ok {
 				nFull++
 				pkg, iface := lookupIface(e[0])
 				for _, t := range implementors(pkg, iface) {
@@ -492,7 +483,7 @@ func runC03(c *Ctx) {
 					okc := covers(t)
 					why := ""
 					if !okc {
-						if r, ok := exempt[key+"|"+ts]; ok {
+						if r, ok := exempt[tkey+"|"+ts]; ok {
 							okc, why = true, "exempt: "+r
 						} else if r, ok := exempt["*|"+ts]; ok {
 							okc, why = true, "exempt: "+r
@@ -507,12 +498,8 @@ func runC03(c *Ctx) {
 				}
 				continue
 			}
-			if e, ok := table["caseset"][key]; ok {
+			if e, _, ok := lookup("caseset", key, have); ok {
 				nCase++
-				have := map[string]bool{}
-				for _, t := range s.covered {
-					have[TypeString(t)] = true
-				}
 				for _, want := range strings.Split(e[0], ",") {
 					c.CheckTrivial(key+"::"+want, s.sw.Pos(), have[want], "case %s was confirmed necessary when this switch was triaged (%s); it is gone, so such a value now reaches the panicking default", want, e[1])
 				}
@@ -522,10 +509,6 @@ func runC03(c *Ctx) {
 		}
 		c.Note("R3.1: %d must-panic type switches: %d decided against a full universe, %d against their inspector filter, %d against a frozen case set (loss of a case only)", len(sws), nFull, nFilter, nCase)
 		// stale table entries
-		present := map[string]bool{}
-		for _, k := range keys {
-			present[k] = true
-		}
 		for _, kind := range []string{"full", "caseset"} {
 			for site := range table[kind] {
 				if !present[site] {
@@ -560,7 +543,7 @@ func runC03(c *Ctx) {
 						if !ok || sw.Tag == nil {
 							return true
 						}
-						call, ok := sw.Tag.(*ast.CallExpr)
+						call, ok := resolveLocal(p, fd, sw.Tag).(*ast.CallExpr)
 						if !ok {
 							return true
 						}
@@ -692,81 +675,57 @@ func runC03(c *Ctx) {
 						if len(flt) == 0 {
 							return true
 						}
-						// unchecked assertions on the parameter, outside type switches;
-						// "if x, ok := node.(*T); ok { …; return }" at the top level narrows the set
-						for _, top := range lit.Body.List {
+						// unchecked assertions on the parameter, decided on the SSA form of the
+						// callback: the kinds that can still arrive at the assertion are the
+						// filter minus those that a comma-ok assertion or type-switch test on
+						// the same value has sent elsewhere (any spelling), or exactly the one
+						// kind whose test succeeded on every path to it.
+						fn := c.FuncOfSyntax(lit)
+						if fn == nil || len(fn.Params) == 0 {
+							c.Undecided("no SSA body for the inspector callback in %s.%s", path, fd.Name.Name)
+						}
+						prm := fn.Params[0]
+						same := func(v ssa.Value) bool { return paramValue(v, prm) }
+						Instrs(fn, false, func(in ssa.Instruction) {
+							ta, ok := in.(*ssa.TypeAssert)
+							if !ok || ta.CommaOk || !same(ta.X) {
+								return
+							}
+							t := ta.AssertedType
 							remaining := flt
-							if ifs, ok := top.(*ast.IfStmt); ok && ifs.Init != nil && ifs.Else == nil {
-								if as, ok := ifs.Init.(*ast.AssignStmt); ok && len(as.Lhs) == 2 && len(as.Rhs) == 1 {
-									if ta, ok := as.Rhs[0].(*ast.TypeAssertExpr); ok && ta.Type != nil {
-										if id, ok := ast.Unparen(ta.X).(*ast.Ident); ok && p.TypesInfo.ObjectOf(id) == param {
-											okID, _ := as.Lhs[1].(*ast.Ident)
-											condID, _ := ifs.Cond.(*ast.Ident)
-											endsInReturn := false
-											if nb := len(ifs.Body.List); nb > 0 {
-												_, endsInReturn = ifs.Body.List[nb-1].(*ast.ReturnStmt)
-											}
-											if okID != nil && condID != nil && p.TypesInfo.ObjectOf(okID) == p.TypesInfo.ObjectOf(condID) && endsInReturn {
-												t := p.TypesInfo.TypeOf(ta.Type)
-												var rest []types.Type
-												for _, ft := range flt {
-													if !types.Identical(ft, t) {
-														rest = append(rest, ft)
-													}
-												}
-												flt = rest
-												continue
-											}
+							if st := succeededAssertType(fn, same, ta); st != nil {
+								remaining = []types.Type{st}
+							} else if gone := failedAssertTypesOf(fn, same, ta, nil); len(gone) > 0 {
+								remaining = nil
+								for _, ft := range flt {
+									out := false
+									for _, g := range gone {
+										if types.Identical(g, ft) {
+											out = true
 										}
+									}
+									if !out {
+										remaining = append(remaining, ft)
 									}
 								}
 							}
-							flt := remaining
-							ast.Inspect(top, func(y ast.Node) bool {
-								switch y := y.(type) {
-								case *ast.TypeSwitchStmt:
-									return true
-								case *ast.AssignStmt:
-									if len(y.Lhs) == 2 && len(y.Rhs) == 1 {
-										if _, isTA := y.Rhs[0].(*ast.TypeAssertExpr); isTA {
-											return false // comma-ok form
-										}
+							okA := len(remaining) == 1 && types.Identical(remaining[0], t)
+							if types.IsInterface(t) {
+								okA = true
+								for _, ft := range remaining {
+									if !types.Implements(ft, t.Underlying().(*types.Interface)) {
+										okA = false
 									}
-								case *ast.ValueSpec:
-									if len(y.Names) == 2 && len(y.Values) == 1 {
-										if _, isTA := y.Values[0].(*ast.TypeAssertExpr); isTA {
-											return false
-										}
-									}
-								case *ast.TypeAssertExpr:
-									if y.Type == nil {
-										return true
-									}
-									id, ok := ast.Unparen(y.X).(*ast.Ident)
-									if !ok || p.TypesInfo.ObjectOf(id) != param {
-										return true
-									}
-									t := p.TypesInfo.TypeOf(y.Type)
-									okA := len(flt) == 1 && types.Identical(flt[0], t)
-									if types.IsInterface(t) {
-										okA = true
-										for _, ft := range flt {
-											if !types.Implements(ft, t.Underlying().(*types.Interface)) {
-												okA = false
-											}
-										}
-									}
-									n++
-									var fs []string
-									for _, ft := range flt {
-										fs = append(fs, TypeString(ft))
-									}
-									c.Check(strings.TrimPrefix(path, Module+"/")+"."+fd.Name.Name+"::assert-"+TypeString(t), y.Pos(), okA,
-										"the callback receives nodes of types %v but asserts %s without checking: another delivered kind panics", fs, TypeString(t))
 								}
-								return true
-							})
-						}
+							}
+							n++
+							var fs []string
+							for _, ft := range remaining {
+								fs = append(fs, TypeString(ft))
+							}
+							c.Check(strings.TrimPrefix(path, Module+"/")+"."+fd.Name.Name+"::assert-"+TypeString(t), ta.Pos(), okA,
+								"the callback receives nodes of types %v here but asserts %s without checking: another delivered kind panics", fs, TypeString(t))
+						})
 						return true
 					})
 				}
@@ -781,17 +740,47 @@ func runC03(c *Ctx) {
 		c.Floor("R3.4", 2)
 		lfs := c.Func("go/loader", "(*program).loadFromSource")
 		n := 0
+		// string-building calls of the standard library are looked through ("go"+v, fmt.Sprintf("go%s", v))
+		opts := SliceOpts{ThroughCalls: true, Stop: func(v ssa.Value) bool {
+			call, ok := v.(*ssa.Call)
+			if !ok {
+				return false
+			}
+			name := CalleeName(call.Common())
+			return !(strings.HasPrefix(name, "fmt.Sprint") || strings.HasPrefix(name, "strings."))
+		}}
+		from := func(v ssa.Value, pred func(ssa.Value) bool) bool { return SliceHas(v, opts, pred) }
 		Instrs(lfs, false, func(in ssa.Instruction) {
 			st, ok := in.(*ssa.Store)
 			if !ok || !IsFieldOf("types.Config", "GoVersion")(st.Addr) {
 				return
 			}
-			n++
-			okSrc := DerivesLocal(st.Val, IsFieldOf("loader.Options", "GoVersion")) || DerivesLocal(st.Val, IsFieldOf("packages.Module", "GoVersion")) ||
-				DerivesLocal(st.Val, IsFieldOf("build.Context", "ReleaseTags"))
-			_, isConst := st.Val.(*ssa.Const)
-			c.Check(FuncKey(lfs)+"::types.Config.GoVersion::source#"+itoa(n), st.Pos(), okSrc && !isConst,
-				"the Go version handed to the type checker comes from the -go flag, the module's go directive, or the toolchain's newest release tag; a fixed version makes go/types reject code the compiler accepted (a compile-category problem on buildable code)")
+			// every alternative of the stored value (one store per branch, or one store of a φ)
+			var leaves []ssa.Value
+			seen := map[ssa.Value]bool{}
+			var expand func(v ssa.Value)
+			expand = func(v ssa.Value) {
+				if seen[v] {
+					return
+				}
+				seen[v] = true
+				if phi, ok := v.(*ssa.Phi); ok {
+					for _, e := range phi.Edges {
+						expand(e)
+					}
+					return
+				}
+				leaves = append(leaves, v)
+			}
+			expand(st.Val)
+			for _, leaf := range leaves {
+				n++
+				okSrc := from(leaf, IsFieldOf("loader.Options", "GoVersion")) || from(leaf, IsFieldOf("packages.Module", "GoVersion")) ||
+					from(leaf, IsFieldOf("build.Context", "ReleaseTags"))
+				_, isConst := leaf.(*ssa.Const)
+				c.Check(FuncKey(lfs)+"::types.Config.GoVersion::source#"+itoa(n), st.Pos(), okSrc && !isConst,
+					"the Go version handed to the type checker comes from the -go flag, the module's go directive, or the toolchain's newest release tag; a fixed version makes go/types reject code the compiler accepted (a compile-category problem on buildable code)")
+			}
 		})
 		if n < 2 {
 			c.Undecided("loadFromSource no longer sets types.Config.GoVersion on both paths")
@@ -817,7 +806,7 @@ func runC03(c *Ctx) {
 					continue
 				}
 				v := ReturnOperand(r, 1)
-				if v == nil || IsNilConst(v) {
+				if v == nil || alwaysNilValue(v, 0) {
 					continue
 				}
 				bad, badPos = "returns a possibly non-nil error", r.Pos()
@@ -914,4 +903,50 @@ func runC03(c *Ctx) {
 			c.Undecided("found only %d uses of typeutil.CoreType in analysis code", nCalls)
 		}
 	})
+}
+
+// alwaysNilValue reports whether v is nil on every path: the constant nil, a φ
+// of such values, or the result of a module function all of whose returns
+// yield nil for that result (helpers a Run body was extracted into).
+func alwaysNilValue(v ssa.Value, depth int) bool {
+	if IsNilConst(v) {
+		return true
+	}
+	if depth > 3 {
+		return false
+	}
+	switch v := v.(type) {
+	case *ssa.Phi:
+		for _, e := range v.Edges {
+			if !alwaysNilValue(e, depth+1) {
+				return false
+			}
+		}
+		return true
+	case *ssa.Call:
+		return calleeResultAlwaysNil(v, 0, depth)
+	case *ssa.Extract:
+		if call, ok := v.Tuple.(*ssa.Call); ok {
+			return calleeResultAlwaysNil(call, v.Index, depth)
+		}
+	}
+	return false
+}
+
+func calleeResultAlwaysNil(call *ssa.Call, idx, depth int) bool {
+	callee := call.Call.StaticCallee()
+	if callee == nil || !FuncInModule(callee) || len(callee.Blocks) == 0 {
+		return false
+	}
+	rets := Returns(callee)
+	if len(rets) == 0 {
+		return false
+	}
+	for _, r := range rets {
+		rv := ReturnOperand(r, idx)
+		if rv == nil || !alwaysNilValue(rv, depth+1) {
+			return false
+		}
+	}
+	return true
 }
